@@ -198,14 +198,16 @@ class PoscarForeign:
     """read_poscar on a foreign file that follows the format definition: scaling factor(s), Direct or Cartesian coordinates,
     optional 'Selective dynamics' line - all numbers symbolic."""
 
-    def __init__(self, mode, nscale, selective):
-        self.mode, self.nscale, self.selective = mode, nscale, selective
+    def __init__(self, mode, nscale, selective, sel_line="Selective dynamics"):
+        self.mode, self.nscale, self.selective, self.sel_line = mode, nscale, selective, sel_line
+        # format definition: only the first letter of the mode line counts; C, c, K, k select Cartesian coordinates, anything else Direct
+        self.direct = mode.strip().lower()[:1] not in ("c", "k")
 
     def __call__(self, ob, tier, seed):
         try:
             return self.prove(ob)
         except (OutsideSubset, TypeError, AttributeError, KeyError, ValueError, IndexError, z3.Z3Exception) as e:
-            wit = dict(mode=self.mode, nscale=self.nscale, selective=self.selective)
+            wit = dict(mode=self.mode, nscale=self.nscale, selective=self.selective, sel_line=self.sel_line)
             ok, info = self.replay(wit)
             if ok:
                 return Result(REFUTED, backend="native-contract-evaluation", witness=wit, replayed=True, replay_info=info,
@@ -234,7 +236,7 @@ class PoscarForeign:
             text = text + num_line(A[i])
         text = text + SStr(["Si C\n", "1 2\n"])
         if self.selective:
-            text = text + SStr(["Selective dynamics\n"])
+            text = text + SStr([self.sel_line + "\n"])
         text = text + SStr([self.mode + "\n"])
         for i in range(3):
             text = text + num_line(X[i], "  T T F" if self.selective else "")
@@ -267,16 +269,16 @@ class PoscarForeign:
                         return self.refute(f"lattice a[{i},{c}] != scaling * file value (in Bohr)")
             for i in range(3):
                 for c in range(3):
-                    if self.mode.lower() == "direct":
+                    if self.direct:
                         want = sum(((X[i][j] * (s(c) * A[j][c])) for j in range(3)), 0) / ang
                     else:
                         want = (s(c) * X[i][c]) / ang
                     if not real_eq(w, r.path.pc, P[i, c], want):
-                        return self.refute(f"position {i} component {c} is not " + ("sum_j c_j a_j" if self.mode.lower() == "direct" else "scaling * file value"))
+                        return self.refute(f"position {i} component {c} is not " + ("sum_j c_j a_j" if self.direct else "scaling * file value"))
         return Result(DISCHARGED, backend="z3", stats=dict(paths=len(res)))
 
     def refute(self, msg):
-        wit = dict(mode=self.mode, nscale=self.nscale, selective=self.selective)
+        wit = dict(mode=self.mode, nscale=self.nscale, selective=self.selective, sel_line=self.sel_line)
         ok, info = self.replay(wit)
         return Result(REFUTED, backend="engine-Z", witness=wit, replayed=ok, replay_info=info, detail=f"read_poscar ({self.mode}, {self.nscale} scaling factor(s)"
                       f"{', selective dynamics' if self.selective else ''}): {msg}")
@@ -295,7 +297,7 @@ class PoscarForeign:
         X = rng.uniform(0.1, 0.9, (3, 3))
         lines = ["foreign", " ".join(f"{v:.8f}" for v in sc)] + [" ".join(f"{v:.8f}" for v in row) for row in A] + ["Si C", "1 2"]
         if wit["selective"]:
-            lines.append("Selective dynamics")
+            lines.append(wit.get("sel_line", "Selective dynamics"))
         lines.append(wit["mode"])
         lines += [" ".join(f"{v:.8f}" for v in row) + ("  T T F" if wit["selective"] else "") for row in X]
         import os
@@ -303,10 +305,17 @@ class PoscarForeign:
         with tempfile.TemporaryDirectory() as d:
             fn = os.path.join(d, "f.POSCAR")
             open(fn, "w").write("\n".join(lines) + "\n")
-            atom, pos, a = read_poscar(fn)
+            # uninitialised memory is made visible: the allocator hands a freed block of the same size to the reader
+            for fill in (7.7e33, -3.3e21):
+                junk = [np.full((3, 3), fill) for _ in range(64)]
+                del junk
+                atom, pos, a = read_poscar(fn)
+                if not np.all(np.abs(np.asarray(pos)) < 1e6):
+                    break
         scv = sc if wit["nscale"] == 3 else np.repeat(sc, 3)
         a_want = A * scv / 0.529177210544
-        pos_want = (X @ (A * scv) if wit["mode"].lower() == "direct" else X * scv) / 0.529177210544
+        direct = wit["mode"].strip().lower()[:1] not in ("c", "k")
+        pos_want = (X @ (A * scv) if direct else X * scv) / 0.529177210544
         ea, ep = float(np.abs(np.asarray(a) - a_want).max()), float(np.abs(np.asarray(pos) - pos_want).max())
         return bool(ea > 1e-6 or ep > 1e-6 or list(atom) != ["Si", "C", "C"]), dict(max_err_cell=ea, max_err_positions=ep, species=list(map(str, atom)))
 
@@ -321,6 +330,21 @@ def _register_foreign():
 
 
 _register_foreign()
+
+
+def _register_foreign_spellings():
+    """The format definition (VASP wiki, linked in the module) lets only the FIRST LETTER of the mode lines decide: 'S'/'s' announces selective
+    dynamics, 'C', 'c', 'K', 'k' Cartesian coordinates, everything else Direct. Files in the wild abbreviate ('Cart', 'D', 'Direct coordinates')."""
+    Z = ("engineZ", "z3", "float-format")
+    for mode, nscale, sel, sl in (("Cart", 1, False, None), ("K", 3, False, None), ("c", 1, True, "Selective Dynamics"), ("D", 1, False, None),
+                                  ("direct coordinates", 3, True, "s"), ("Fractional", 1, False, None)):
+        register(Obligation(name=f"C17.poscar.foreign_spelling[{mode},{nscale}sc{',sel=' + sl if sel else ''}]", prop=PROP, engine="Z",
+                            functions=["eminus.io.poscar:read_poscar"], run=PoscarForeign(mode, nscale, sel, sl or "Selective dynamics"), assumes=Z,
+                            doc=f"read_poscar on a foreign file whose mode line reads '{mode}'" + (f" after a '{sl}' line" if sel else "") + ": only the first letter "
+                                "decides (format definition); every position is assigned (never uninitialised memory) and follows the Direct / Cartesian formula"))
+
+
+_register_foreign_spellings()
 
 
 class CubeRoundTrip:
